@@ -112,7 +112,7 @@ class GtfLeg(object):
             return {"genes": genes, "order": order, "dialect": d, "keys": keys, "custom": custom,
                     "disable_genes": draw(st.booleans()), "disable_transcripts": draw(st.booleans()),
                     "file_db": draw(st.integers(0, 3)) == 0, "split_update": draw(st.integers(0, 3)) == 0,
-                    "late_exons": draw(st.integers(0, 2)) == 0}
+                    "late_exons": draw(st.integers(0, 2)) == 0, "foreign_then_reopen": draw(st.integers(0, 2)) == 0}
 
         return case().filter(lambda c: nlines(c["genes"]) >= 1 and any(
             s["ft"] == "EXON" for g in c["genes"] for t in g["transcripts"] for s in t["subs"]))
@@ -127,6 +127,8 @@ class GtfLeg(object):
             labels.append("last-gene-through-update")
         elif case.get("late_exons") and not case["custom"]:
             labels.append("exons-arrive-through-update")
+        if case.get("foreign_then_reopen") and case["file_db"] and not case["custom"] and (case.get("split_update") or case.get("late_exons")):
+            labels.append("constructed-feature-update-and-reopen-before")
         for name, flag in (("multi-transcript", multi_tx), ("shuffled", shuffled), ("explicit-line", explicit),
                            ("exonless-transcript", exonless), ("custom-keys", case["custom"])):
             if flag:
@@ -140,6 +142,21 @@ class GtfLeg(object):
             if len(with_exons) == 1 and len(g["tx"]) >= 1:
                 return with_exons[0]
         return None
+
+    @staticmethod
+    def _foreign_then_reopen(case, db, dbfn, kw):
+        """Before the GTF lines arrive through update(): an update with a Feature built through the constructor (it
+        carries the default, GFF3, dialect and no transcript/gene attribute), then the file is reopened.  The database
+        stays a GTF database: the later lines still go through the GTF importer."""
+        if not (case.get("foreign_then_reopen") and case["file_db"]):
+            return db
+        import gffutils
+        from gffutils.feature import Feature
+
+        db.update([Feature(seqid="chrM", source="src", featuretype="marker", start=1, end=2, attributes={"note": ["m"]})],
+                  make_backup=False, **kw)
+        db.conn.close()
+        return gffutils.FeatureDB(dbfn, keep_order=True)
 
     def check(self, case, ctx):
         import gffutils
@@ -167,6 +184,7 @@ class GtfLeg(object):
             p1 = ctx.write("a1.gtf", "\n".join(lines[:k]) + "\n")
             p2 = ctx.write("a2.gtf", "\n".join(lines[k:]) + "\n")
             db = gffutils.create_db(p1, dbfn, keep_order=True, **kw)
+            db = self._foreign_then_reopen(case, db, dbfn, kw)
             db.update(p2, make_backup=False, **kw)
         elif case.get("late_exons") and not case["custom"] and self._late_target(case, model) is not None:
             # the exon lines of one transcript (the only exon-bearing transcript of its gene) arrive later through
@@ -180,6 +198,7 @@ class GtfLeg(object):
                 p1 = ctx.write("a1.gtf", "\n".join(lines[:len(early)]) + "\n")
                 p2 = ctx.write("a2.gtf", "\n".join(lines[len(early):]) + "\n")
                 db = gffutils.create_db(p1, dbfn, keep_order=True, **kw)
+                db = self._foreign_then_reopen(case, db, dbfn, kw)
                 db.update(p2, make_backup=False, **kw)
                 split = True
             else:
@@ -193,7 +212,7 @@ class GtfLeg(object):
         if case["file_db"]:
             db.conn.close()
             db = gffutils.FeatureDB(dbfn, keep_order=True)
-        feats = list(db.all_features())
+        feats = [f for f in db.all_features() if f.featuretype != "marker"]
         n = len(recs)
         if split:
             # rows are no longer "file lines first": put the file's lines first, by id, for the checks below
